@@ -347,6 +347,11 @@ class Emitter:
         if k == "try" and getattr(self.u, "try_handler", None):
             # `e?`: what propagating the error means depends on the unit's encoding of `Result`
             return self.u.try_handler(self, e, env, hint)
+        if getattr(self.u, "expr_handler", None):
+            # expression kinds only some units use (array literals `[a, b]`, `[v; n]`)
+            r = self.u.expr_handler(self, e, env, hint)
+            if r is not None:
+                return r
         raise TErr(f"{self.u.name}::{env.fn.name}: expression `{k}` is outside the translated subset")
 
     def cbin(self, e, env, hint):
@@ -981,6 +986,11 @@ class Emitter:
     def cassign(self, st, env):
         op, lhs, rhs = st[1], st[2], st[3]
         lhs = strip_ref(lhs)
+        if getattr(self.u, "assign_handler", None):
+            # assignment targets only some units use (`bytes[i] = v` on a local array)
+            r = self.u.assign_handler(self, st, env)
+            if r is not None:
+                return r
         f = self.state_field(lhs, env)
         if f:
             c = self.cexpr(rhs, env, f["ty"])
@@ -1144,6 +1154,10 @@ class Emitter:
                 b = [f"if {' && '.join(conds)} then", b, "else", brk]
             lines += c.pre + [f"match {c.val} with", f"| {pat} =>", b, "| _ =>", brk]
         elif k == "for":
+            if getattr(self.u, "for_handler", None):
+                r = self.u.for_handler(self, e, env, lname_)
+                if r is not None:
+                    return r
             return self.cfor(e, env, label, lname_, muts, caps, mu, cap_binders, cap_args, gen, gen_arg, mut_pat, brk)
         ret = self.ret_lean_cur
         aux = [f"def {lname_}{gen}{cap_binders} : Nat → {mu} → {self.u.monad} (Ctl {mu} ({ret}))",
@@ -1416,6 +1430,8 @@ def ctor_of(lp):
     """Constructor fully covered by a Lean pattern (`some x`, `.ok n`, `none`), else None."""
     m = re.fullmatch(r"(some|\.ok|\.error)((?:\s+(?:[a-z_][A-Za-z0-9_']*|_))*)", lp)
     if m:
+        if set(m.group(2).split()) & {"true", "false"}:
+            return None      # `some true`: a literal argument, the constructor is not covered
         return m.group(1)
     if lp in ("none", "true", "false"):
         return lp
@@ -1559,6 +1575,8 @@ def collect(e, assigned, used):
             l = strip_ref(e[2])
             if l[0] == "path" and len(l[1]) == 1:
                 assigned.add(l[1][0])
+            if l[0] == "index" and strip_ref(l[1])[0] == "path" and len(strip_ref(l[1])[1]) == 1:
+                assigned.add(strip_ref(l[1])[1][0])      # `xs[i] = v` assigns the local array `xs`
             if e[1] != "=":
                 collect(e[2], assigned, used)
             else:
